@@ -75,7 +75,6 @@ InvLanelets     == Mode = "window" => \A ids \in SUBSET {101, 102, 999} :
                        /\ LaneletsExpected({101, 102}, 1, ids) = ids \ {999}
 
 (* ------------------------------ generation ---------------------------------- *)
-SeqOf(S) == CHOOSE s \in [1..Cardinality(S) -> S] : \A i, j \in 1..Cardinality(S) : i # j => s[i] # s[j]
 (* tree: one case per node with all scalar field names of the table (Python runs a Set history per (node, field)) *)
 EmitTree  == (Mode = "tree" /\ hist = <<>>) =>
                  \A n \in Nodes : PrintT(<<"CASE", ToJson([part |-> "tree", node |-> n, class |-> NodeClass[n],
